@@ -818,6 +818,10 @@ class CallMixin:
 
     # ------------------------------------------------------------------ methods
     def call_method(self, recv, name, args, kws, st, node, k):
+        if isinstance(recv, VObj) and (recv.sort, name) in self.objmethods:
+            h = self.objmethods[(recv.sort, name)]
+            self.note('rule', (node.lineno, ast.unparse(node)[:70], getattr(h, '__name__', 'method model')))
+            return h(self, st, recv, node, args, kws, k)
         if isinstance(recv, VRef):
             h = st.heap[recv.rid]
             if isinstance(h, HList):
